@@ -71,14 +71,17 @@ bool ro_apply(int fn, const cbor_item_t* it, unsigned char* out, size_t outn) {
     case RO_BYTESTRING:
       if (t != CBOR_TYPE_BYTESTRING) return false;
       s += cbor_bytestring_is_definite(it) + cbor_bytestring_is_indefinite(it);
-      if (cbor_bytestring_is_definite(it)) { s += cbor_bytestring_length(it) + (uintptr_t)cbor_bytestring_handle(it); if (cbor_bytestring_length(it)) s += cbor_bytestring_handle(it)[0]; }
+      /* length and handle are callable on either flavour (their only precondition is the major type) */
+      s += cbor_bytestring_length(it) + (uintptr_t)cbor_bytestring_handle(it);
+      if (cbor_bytestring_is_definite(it)) { if (cbor_bytestring_length(it) && cbor_bytestring_handle(it)) s += cbor_bytestring_handle(it)[0]; }
       else { s += cbor_bytestring_chunk_count(it) + (uintptr_t)cbor_bytestring_chunks_handle(it); }
       break;
     case RO_STRING:
       if (t != CBOR_TYPE_STRING) return false;
       s += cbor_string_is_definite(it) + cbor_string_is_indefinite(it);
-      if (cbor_string_is_definite(it)) { s += cbor_string_length(it) + cbor_string_codepoint_count(it) + (uintptr_t)cbor_string_handle(it); }
-      else { s += cbor_string_chunk_count(it) + (uintptr_t)cbor_string_chunks_handle(it); }
+      /* length, handle and code point count are callable on either flavour */
+      s += cbor_string_length(it) + cbor_string_codepoint_count(it) + (uintptr_t)cbor_string_handle(it);
+      if (cbor_string_is_indefinite(it)) { s += cbor_string_chunk_count(it) + (uintptr_t)cbor_string_chunks_handle(it); }
       break;
     case RO_ARRAY:
       if (t != CBOR_TYPE_ARRAY) return false;
